@@ -155,6 +155,8 @@ struct FenvEngine : Engine {
             std::uint64_t K = ops[i].op->elem == 4 ? L32.size() : L64.size();
             std::uint64_t per = (std::uint64_t)sweep_steps * ops[i].op->width;
             std::uint64_t blocks = (K + per - 1) / per;
+            // binary operations: every operand a is paired with `pairings` different partners b (1 quick, 12 thorough)
+            if (ops[i].op->arity == 2) blocks *= (tier == "thorough" ? 12 : 1);
             for (int rc = 0; rc < 4; ++rc) { segs.push_back({i, rc, sweep_total, blocks}); sweep_total += blocks; }
         }
         if (std::getenv("VERIF_EXHAUSTIVE") && (prop == "C11" || prop.empty())) {
@@ -207,12 +209,13 @@ struct FenvEngine : Engine {
         out.head.op = "plan"; out.head.set("engine", "fenv"); out.head.set("prop", prop); out.head.set("kind", "sweep");
         Step e; e.op = "setenv"; e.set("rc", sg.rc); e.set("ftz", 0); e.set("daz", 0); out.steps.push_back(e);
         std::uint64_t K = o.op->elem == 4 ? L32.size() : L64.size();
+        std::uint64_t per_ = (std::uint64_t)sweep_steps * o.op->width, nb = (K + per_ - 1) / per_, pairing = blk / nb; blk %= nb;
         std::uint64_t pos = blk * sweep_steps * o.op->width;
         for (unsigned s = 0; s < sweep_steps && pos < K; ++s) {
             Step c; c.op = "call"; c.set("fn", o.op->fn); c.set("type", o.op->type);
             std::vector<std::uint64_t> a, b;
             for (unsigned l = 0; l < o.op->width; ++l, ++pos) {
-                std::uint64_t i = pos % K, j = (pos * 2654435761ull + blk * 40503ull + 17) % K;
+                std::uint64_t i = pos % K, j = (pos * (2654435761ull + 2 * pairing * 1000003ull) + blk * 40503ull + 17 + pairing * 7919ull) % K;
                 a.push_back(o.op->elem == 4 ? L32[i] : L64[i]);
                 b.push_back(o.op->elem == 4 ? L32[j] : L64[j]);
             }
